@@ -37,6 +37,35 @@ REFNAME = {("d", "k", "prev"): "@d0", ("v", "k", "prev"): "@v0", ("force", "k", 
            ("f1", "rb", "all"): "@f1rb", ("force", "rb", "prev"): "@f0rb", ("d", "rb", "prev"): "@drb0", ("v", "rb", "prev"): "@vrb0"}
 
 
+def _mentions_opaque(detail):
+    """the values shown with a failed comparison contain a call the engine did not interpret (printed `call:<name>(...)`)"""
+    if detail is None:
+        return False
+    try:
+        import json
+        t = detail if isinstance(detail, str) else json.dumps(detail, default=repr)
+    except Exception:  # noqa
+        t = repr(detail)
+    return "call:" in t
+
+
+def _fail(ctx, instance, where=None, detail=None, key=None):
+    """a comparison that failed on a value containing a call the engine does not interpret (a library routine it has no model of, a function
+    it did not follow) is not decided: what the call computes is not known, so the values were never comparable"""
+    if key is None and _mentions_opaque(detail):
+        ctx.error(instance + " [not decided: a value reaching this comparison contains a call the engine does not interpret]", where, detail)
+        return
+    ctx.fail(instance, where, detail, key)
+
+
+def _check(ctx, cond, instance, where=None, detail=None, key=None, nontrivial=True):
+    if cond:
+        ctx.ok(instance, where, detail, nontrivial)
+    else:
+        _fail(ctx, instance, where, detail, key)
+    return cond
+
+
 def refsym(arr, rn, cn):
     return F.sym(REFNAME.get((arr, rn, cn), f"@{arr}.{rn}.{cn}"))
 
@@ -477,7 +506,7 @@ def r1_carried_state(ctx):
                 # (a tag that is tested while nothing cached ever enters a value is inert)
                 ctx.ok(what, lp, detail, nontrivial=first)
             elif unchecked:
-                ctx.fail(what, lp, dict(detail, enters_unchecked=unchecked,
+                _fail(ctx, what, lp, dict(detail, enters_unchecked=unchecked,
                                         consequence="after send(1..5) then send(3, f') a value computed for step 5 enters step 3"))
             else:
                 ctx.error(f"{tag}: the state carried from one send to the next has a structure the rule cannot place", lp, detail)
@@ -492,7 +521,7 @@ def r1_carried_state(ctx):
                 if two is not None and two.ev.prime_yields:
                     py = [two]
             if py:
-                ctx.fail(f"{tag}: with two or more time steps the first yield the body reaches is the receiving one (generator() primes the "
+                _fail(ctx, f"{tag}: with two or more time steps the first yield the body reaches is the receiving one (generator() primes the "
                          "body once; a yield before the loop swallows the first send)", py[0].ev.prime_yields[0],
                          {"test": ast.unparse(getattr(G.parent_if(py[0].ev.prime_yields[0]), "test", ast.Constant(None)))})
             elif my:
@@ -506,7 +535,7 @@ def r1_carried_state(ctx):
             for a_, w_ in zip(arms[:2], ("positive", "add-on")):
                 if a_.crashes:
                     msg, st_ = a_.crashes[0]
-                    ctx.fail(f"{tag}: a {w_} send reads no name before something is bound to it", st_ if st_ is not None else lp,
+                    _fail(ctx, f"{tag}: a {w_} send reads no name before something is bound to it", st_ if st_ is not None else lp,
                              {"crash": msg, "all": [m for m, _ in a_.crashes]})
                 else:
                     ctx.ok(f"{tag}: a {w_} send reads no name before something is bound to it", lp, nontrivial=False)
@@ -519,7 +548,7 @@ def r1_carried_state(ctx):
                              pos.final(iv), addon.final(iv))
             else:
                 ok = pos.final(iv).equals(J) and addon.final(iv).equals(F.sym("carry:" + iv))
-                ctx.check(ok, f"{tag}: the step index is taken from the send by a positive send and kept by an add-on", lp,
+                _check(ctx, ok, f"{tag}: the step index is taken from the send by a positive send and kept by an add-on", lp,
                           None if ok else {"positive": repr(pos.final(iv)), "add-on": repr(addon.final(iv))}, nontrivial=False)
             if want_cache and len(tags) == 1 and len(cache) == 1:
                 _cached_damping_force(ctx, tag, cfg, tags[0], cache[0], arms)
@@ -560,7 +589,7 @@ def _cached_damping_force(ctx, tag, cfg, tg, ch, arms):
     if ok:
         cn = pos.canon.colname(t0)
         ok = cn is not None and c0.equals(BO * refsym("v", "k", cn))
-    ctx.check(ok, f"{tag}: before the first send the cache holds bo @ V[:, s] for the step s it is tagged with", lp,
+    _check(ctx, ok, f"{tag}: before the first send the cache holds bo @ V[:, s] for the step s it is tagged with", lp,
               None if ok else {"tag": repr(t0), "cache": repr(c0)})
     # meaning of the guard: whatever step was solved last, a value cached for a step other than j-1 never enters step j
     for wname, carry, generic in _worlds(tg, ch):
@@ -572,7 +601,7 @@ def _cached_damping_force(ctx, tag, cfg, tg, ch, arms):
         if wname.startswith("step j-1"):
             continue
         used = [c["text"] for c in w.cells if depends(c["value"], "stale_cache")] + [k for k in (ch,) if depends(w.final(k), "stale_cache")]
-        ctx.check(not used, f"{tag} [{wname}]: the force cached by an earlier send is not used (it belongs to another step); the step is computed from "
+        _check(ctx, not used, f"{tag} [{wname}]: the force cached by an earlier send is not used (it belongs to another step); the step is computed from "
                             "column j-1", lp, None if not used else {"depends on the stale cache": used,
                                                                      "consequence": "after send(1..5) then send(3, f') the force of step 5 enters step 3"})
     # bookkeeping of the tag
@@ -581,16 +610,16 @@ def _cached_damping_force(ctx, tag, cfg, tg, ch, arms):
                      pos.final(tg), addon.final(tg))
     else:
         ok = pos.final(tg).equals(J)
-        ctx.check(ok, f"{tag}: a positive send records which step the cache now belongs to", lp, None if ok else repr(pos.final(tg)))
+        _check(ctx, ok, f"{tag}: a positive send records which step the cache now belongs to", lp, None if ok else repr(pos.final(tg)))
         ok = _eq(addon.final(tg), addon.lev.carry_over.get(tg, F.sym("carry:" + tg)))
-        ctx.check(ok, f"{tag}: an add-on leaves the tag of the cache alone", lp, None if ok else repr(addon.final(tg)), nontrivial=False)
+        _check(ctx, ok, f"{tag}: an add-on leaves the tag of the cache alone", lp, None if ok else repr(addon.final(tg)), nontrivial=False)
     # an add-on that changes V[:, i] changes the cached force as well
     vch = addon.cell("v", "k") is not None
     if not _good(addon.final(ch)):
         _not_lowered(ctx, f"{tag}: cached damping force after an add-on not lowered", lp, repr(addon.final(ch)), addon.final(ch))
     else:
         cch = not addon.final(ch).equals(F.sym("carry:" + ch))
-        ctx.check(vch == cch, f"{tag}: an add-on force changes the cached damping force exactly when it changes V[:, i]", lp,
+        _check(ctx, vch == cch, f"{tag}: an add-on force changes the cached damping force exactly when it changes V[:, i]", lp,
                   {"V changed": vch, "cache changed": cch})
 
 
@@ -725,7 +754,7 @@ def _not_lowered(ctx, instance, where, detail, *vals):
     """a value the rule needs is unknown: a violation when the code provably crashes there, otherwise an analysis error"""
     why = _undefined(*vals)
     if why:
-        ctx.fail(instance, where, {"crash": why})
+        _fail(ctx, instance, where, {"crash": why})
     else:
         ctx.error(instance, where, detail)
 
@@ -745,13 +774,13 @@ def _judge(ctx, label, where, got, want, nontrivial=True, missing="no store into
     """verdict of one value comparison.  got None: the store is absent (a violation); a value the engine could not lower: an analysis error
     (a violation when the path provably crashes); otherwise the two values are compared"""
     if got is None:
-        ctx.fail(label, where, missing)
+        _fail(ctx, label, where, missing)
         return False
     if not _good(got) or not _good(want):
         _not_lowered(ctx, label + ": not lowered", where, {names[0]: repr(got), names[1]: repr(want)}, got, want)
         return False
     ok = got.equals(want)
-    ctx.check(ok, label, where, None if ok else {names[0]: repr(got), names[1]: repr(want)}, nontrivial=nontrivial)
+    _check(ctx, ok, label, where, None if ok else {names[0]: repr(got), names[1]: repr(want)}, nontrivial=nontrivial)
     return ok
 
 
@@ -785,7 +814,7 @@ def _nothing_else(ctx, arm, allowed, what):
         elif (arr, rn) not in allowed or cn != "cur":
             other.append(c["text"])
     if other:
-        ctx.fail(what, arm.loop, other)
+        _fail(ctx, what, arm.loop, other)
     elif unplaced:
         ctx.error(what + ": a store the rule cannot place", arm.loop, unplaced)
     else:
@@ -824,7 +853,7 @@ def batch_step(ctx, kind, cfg, derived=0, label=None):
     seen.add((kind, id(b)))
     if b.ev.facts.crashes:
         msg, st_ = b.ev.facts.crashes[0]
-        ctx.fail(f"{tag}: the batch solver reads no name before something is bound to it", st_ if st_ is not None else b.fn, {"crash": msg})
+        _fail(ctx, f"{tag}: the batch solver reads no name before something is bound to it", st_ if st_ is not None else b.fn, {"crash": msg})
     unv = b.unverified()
     stale = [c for c in unv if symname(c["hyp"]) in STATE_SYMS]
     notlow = [c for c in unv if not _bgood(c["final"]) or not _bgood(c["hyp"])]
@@ -832,7 +861,7 @@ def batch_step(ctx, kind, cfg, derived=0, label=None):
         ctx.error(f"{tag}: a value the time loop carries is not lowered", notlow[0]["loop"], {c["name"]: repr(c["final"]) for c in notlow})
         return None
     if stale:
-        ctx.fail(f"{tag}: what the time loop carries into the next iteration is the column it has just stored", stale[0]["loop"],
+        _fail(ctx, f"{tag}: what the time loop carries into the next iteration is the column it has just stored", stale[0]["loop"],
                  {c["name"]: {"holds at the start of step i": repr(c["hyp"]), "after the body": repr(c["final"])} for c in stale})
     elif len(unv) > derived:
         ctx.error(f"{tag}: the time loop carries a value the rule cannot place", unv[0]["loop"], {c["name"]: repr(c["hyp"]) for c in unv})
@@ -856,14 +885,14 @@ def r2_step_equals_batch(ctx):
         if not _bgood(d1) or not _bgood(v1):
             continue
         ok = _eq(d1, ref[order][0]) and _eq(v1, ref[order][1])
-        ctx.check(ok, f"_solve_real_unc_inner_loop (order {order}): the batch step is the documented one-step recurrence "
+        _check(ctx, ok, f"_solve_real_unc_inner_loop (order {order}): the batch step is the documented one-step recurrence "
                       f"{'F d + G v + A f0 + B f1' if order else 'F d + G v + (A + B) f0'} (and its velocity twin)", loop,
                   None if ok else {"d1": repr(d1), "v1": repr(v1)})
     if not all(_bgood(x) for o in (0, 1) for x in batch[o][:2]):
         ctx.error("_solve_real_unc: batch step not lowered", batch[0][2], {o: [repr(x) for x in batch[o][:2]] for o in (0, 1)})
     else:
         ok = batch[1][0].subs({"@f1": F0}).equals(batch[0][0]) and batch[1][1].subs({"@f1": F0}).equals(batch[0][1])
-        ctx.check(ok, "_solve_real_unc_inner_loop: order 0 is order 1 with the force held (f1 := f0)", batch[0][2])
+        _check(ctx, ok, "_solve_real_unc_inner_loop: order 0 is order 1 with the force held (f1 := f0)", batch[0][2])
     # generators: plain uncoupled
     for cfg in u_configs():
         tag = f"_solve_real_unc_generator ({cfg_tag(cfg)})"
@@ -896,14 +925,14 @@ def r2_step_equals_batch(ctx):
         unv = bs.unverified()
         loop = bs.where("d", "k")
         if len(unv) != 1:
-            ctx.fail(f"{tag}: the batch loop carries the off-diagonal damping force of the step it has just solved", loop,
+            _fail(ctx, f"{tag}: the batch loop carries the off-diagonal damping force of the step it has just solved", loop,
                      {c["name"]: repr(c["hyp"]) for c in bs.carried})
             return None
         if not _bgood(unv[0]["hyp"]):
             ctx.error(f"{tag}: the value the batch loop carries besides the solution is not lowered", loop, repr(unv[0]["hyp"]))
             return None
         ok = _eq(unv[0]["hyp"], BO * V0)
-        ctx.check(ok, f"{tag}: the damping force the batch loop starts from is bo @ V[:, 0]", loop, None if ok else repr(unv[0]["hyp"]), nontrivial=False)
+        _check(ctx, ok, f"{tag}: the damping force the batch loop starts from is bo @ V[:, 0]", loop, None if ok else repr(unv[0]["hyp"]), nontrivial=False)
         out = (bs.value("d", "k"), bs.value("v", "k"), unv[0]["final"], loop)
         if not all(_bgood(x) for x in out[:3]):
             ctx.error(f"{tag}: batch step not lowered", loop, [repr(x) for x in out[:3]])
@@ -938,7 +967,7 @@ def r2_step_equals_batch(ctx):
             worlds = _worlds(tags[0], cache[0])
             plan = [("cache valid", worlds[0]), ("recompute", worlds[-1])]
         elif cache and not tags:
-            ctx.fail(f"{tag}: a force cached by an earlier send is used only when it is checked against the step it belongs to", arms[0].loop,
+            _fail(ctx, f"{tag}: a force cached by an earlier send is used only when it is checked against the step it belongs to", arms[0].loop,
                      {"carried": {k: sorted(v) for k, v in roles.items()}})
             continue
         else:
@@ -957,12 +986,12 @@ def r2_step_equals_batch(ctx):
             d1, v1 = _u(w.value("d", "k"), cfg), _u(w.value("v", "k"), cfg)
             lab = f"{tag} [{arm_name}]: a positive send stores the batch step of the damping-as-force recurrence"
             if d1 is None or v1 is None:
-                ctx.fail(lab, w.loop, "no store into column i of the rb/el partition")
+                _fail(ctx, lab, w.loop, "no store into column i of the rb/el partition")
             elif not _good(d1) or not _good(v1):
                 _not_lowered(ctx, lab + ": not lowered", w.loop, {"generator d": repr(d1), "generator v": repr(v1)}, d1, v1)
             else:
                 ok = d1.equals(b[0]) and v1.equals(b[1])
-                ctx.check(ok, lab, (w.cell("d", "k") or {}).get("node") or w.loop,
+                _check(ctx, ok, lab, (w.cell("d", "k") or {}).get("node") or w.loop,
                           None if ok else {"generator d": repr(d1), "batch d": repr(b[0]), "generator v": repr(v1), "batch v": repr(b[1])})
             if world is None:
                 continue
@@ -971,7 +1000,7 @@ def r2_step_equals_batch(ctx):
                 _not_lowered(ctx, f"{tag} [{arm_name}]: cached damping force after the send not lowered", w.loop, repr(dn), dn)
                 continue
             ok = _eq(dn, b[2])
-            ctx.check(ok, f"{tag} [{arm_name}]: the damping force cached for the next step equals the batch loop's carried value", w.loop,
+            _check(ctx, ok, f"{tag} [{arm_name}]: the damping force cached for the next step equals the batch loop's carried value", w.loop,
                       None if ok else {"generator": repr(dn), "batch": repr(b[2])})
         if evp is not None:
             _rf_and_force(ctx, tag, evp, cfg)
@@ -1006,7 +1035,7 @@ def r2_step_equals_batch(ctx):
             mm = invm if mass is not None else F.const(1)
             want = P * mm * F0 + (Q * mm * F1 if order == 1 else 0)
             ok = _eq(d1, F.sym("E_dd") * D0 + F.sym("E_dv") * V0 + ROWS_D * want) and _eq(v1, F.sym("E_vd") * D0 + F.sym("E_vv") * V0 + ROWS_V * want)
-            ctx.check(ok, f"SolveExp2.tsolve (order {order}, m {mass or 'None'}): the batch step is d = E_dd d + E_dv v + PQF[d half], "
+            _check(ctx, ok, f"SolveExp2.tsolve (order {order}, m {mass or 'None'}): the batch step is d = E_dd d + E_dv v + PQF[d half], "
                           "v = E_vd d + E_vv v + PQF[v half], PQF = P M^-1 f0 (+ Q M^-1 f1)", loop, None if ok else {"d": repr(d1), "v": repr(v1)})
 
 
@@ -1027,14 +1056,14 @@ def _inc(cell):
 def _judge_inc(ctx, label, where, cell, want, missing="no store into column i of that partition"):
     """what a store adds to its target equals `want` (absent store: violation; value not lowered: analysis error)"""
     if cell is None:
-        ctx.fail(label, where, missing)
+        _fail(ctx, label, where, missing)
         return False
     inc = _inc(cell)
     if inc is None or not _good(want):
         _not_lowered(ctx, label + ": not lowered", cell["node"], {"stored": repr(cell["value"]), "content before": repr(cell["cur"])}, cell["value"], cell["cur"], want)
         return False
     ok = inc.equals(want)
-    ctx.check(ok, label, cell["node"], None if ok else {"increment": repr(inc), "expected": repr(want)})
+    _check(ctx, ok, label, cell["node"], None if ok else {"increment": repr(inc), "expected": repr(want)})
     return ok
 
 
@@ -1066,12 +1095,12 @@ def r3_addon_linear_part(ctx):
                 for arr, label in (("d", "displacement"), ("v", "velocity")):
                     cell = add.cell(arr, "k")
                     if cfg["order"] == 0:
-                        ctx.check(cell is None, f"{tag}: with zero-order hold an add-on force leaves the current {label} untouched (it acts from the next step on)",
+                        _check(ctx, cell is None, f"{tag}: with zero-order hold an add-on force leaves the current {label} untouched (it acts from the next step on)",
                                   cell["node"] if cell else lp, None if cell is None else repr(cell["value"]))
                         continue
                     pv = _u(pos.value(arr, "k"), cfg)
                     if cell is None or not _good(pv):
-                        ctx.fail(f"{tag}: add-on updates the current {label}", lp, sorted({c["text"] for c in add.cells}))
+                        _fail(ctx, f"{tag}: add-on updates the current {label}", lp, sorted({c["text"] for c in add.cells}))
                         continue
                     inc = _u(_inc(cell), cfg)
                     if inc is None:
@@ -1079,7 +1108,7 @@ def r3_addon_linear_part(ctx):
                         continue
                     lin = pv.diff("@f1") * F1
                     ok = inc.equals(lin)
-                    ctx.check(ok, f"{tag}: the add-on {label} increment is the f1-linear part of the positive-send update", cell["node"],
+                    _check(ctx, ok, f"{tag}: the add-on {label} increment is the f1-linear part of the positive-send update", cell["node"],
                               None if ok else {"increment": repr(inc), "d(update)/d f1 * F1": repr(lin)})
             _judge_inc(ctx, f"{tag}: an add-on accumulates into the stored force of step i", lp, _force_cell(add), F1ALL, missing="no store into the force history")
             if cfg.get("rf"):
@@ -1087,14 +1116,14 @@ def r3_addon_linear_part(ctx):
             allowed = {("d", "k"), ("v", "k"), ("d", "rf"), ("force", "all"), ("force", "k"), ("force", "rf")}
             _nothing_else(ctx, add, allowed, f"{tag}: an add-on touches nothing else")
             ivs = sorted(add.canon.index_vars)
-            ctx.check(len(ivs) == 1, f"{tag}: every add-on store addresses the column of the step solved last", lp, ivs, nontrivial=False)
+            _check(ctx, len(ivs) == 1, f"{tag}: every add-on store addresses the column of the step solved last", lp, ivs, nontrivial=False)
             if cache is not None and cfg["order"] == 1:
                 dn_pos, dn_add = _u(pos.final(cache), cfg), _u(add.final(cache), cfg)
                 if not _good(dn_pos) or not _good(dn_add):
                     _not_lowered(ctx, f"{tag}: cached damping force after an add-on not lowered", lp, {"add-on": repr(dn_add), "positive": repr(dn_pos)}, dn_pos, dn_add)
                 else:
                     ok = (dn_add - F.sym("carry:" + cache)).equals(dn_pos.diff("@f1") * F1)
-                    ctx.check(ok, f"{tag}: the cached damping force receives the f1-linear part as well", lp,
+                    _check(ctx, ok, f"{tag}: the cached damping force receives the f1-linear part as well", lp,
                               None if ok else {"add-on": repr(dn_add), "positive": repr(dn_pos)})
 
 
@@ -1126,26 +1155,26 @@ def r2c_complex_path(ctx):
         for what, gk in pairs:
             bv, gv = b.value(*gk), g.value(*gk)
             if gv is None and _bgood(bv):
-                ctx.fail(f"_solve_complex_unc_generator ({tag}): a positive send stores the batch {what} step computed from column i-1", lp,
+                _fail(ctx, f"_solve_complex_unc_generator ({tag}): a positive send stores the batch {what} step computed from column i-1", lp,
                          {"generator": "no store into column i of that partition", "stores": sorted({c["text"] for c in g.cells})})
                 continue
             if not _bgood(bv) or not _good(gv):
                 _not_lowered(ctx, f"complex path ({tag}): {what} not lowered", bfn, {"batch": repr(bv), "generator": repr(gv)}, gv)
                 continue
             ok = gv.equals(bv)
-            ctx.check(ok, f"_solve_complex_unc_generator ({tag}): a positive send stores the batch {what} step computed from column i-1", lp,
+            _check(ctx, ok, f"_solve_complex_unc_generator ({tag}): a positive send stores the batch {what} step computed from column i-1", lp,
                       None if ok else {"generator": repr(gv), "batch": repr(bv)})
         # acceleration of the rigid-body modes and the rf displacement
         gv = g.value("a", "rb")
         bv = b.value("a", "rb")
         ok = _good(gv) and _bgood(bv) and gv.equals(bv)
-        ctx.check(ok, f"_solve_complex_unc_generator ({tag}): rigid-body acceleration of step i is M_rb^-1 F1[rb] as in the batch solver", lp,
+        _check(ctx, ok, f"_solve_complex_unc_generator ({tag}): rigid-body acceleration of step i is M_rb^-1 F1[rb] as in the batch solver", lp,
                   None if ok else {"generator": repr(gv), "batch": repr(bv)})
         _judge(ctx, f"_solve_complex_unc_generator ({tag}): residual-flexibility displacement of step i is K_rf^-1 F1[rf]", lp, g.value("d", "rf"), IKRF * F1RF)
         a0 = [c for c in g.pre_cells if c["key"] == ("a", "rb", "0")]
         gv = g.value("a", "rb")
         ok = len(a0) == 1 and _good(gv) and _eq(a0[0]["value"], gv.subs({"@f1rb": refsym("f0p", "rb", "all")}))
-        ctx.check(ok, f"_solve_complex_unc_generator ({tag}): the rigid-body acceleration of step 0 is M_rb^-1 F0[rb] (the batch value of column 0)",
+        _check(ctx, ok, f"_solve_complex_unc_generator ({tag}): the rigid-body acceleration of step 0 is M_rb^-1 F0[rb] (the batch value of column 0)",
                   a0[0]["node"] if a0 else lp, None if ok else [repr(c["value"]) for c in a0])
         c = _force_cell(g)
         _judge(ctx, f"_solve_complex_unc_generator ({tag}): a positive send replaces the stored force of step i by the sent force", lp,
@@ -1163,7 +1192,7 @@ def r2c_complex_path(ctx):
                     ctx.error(f"_solve_complex_unc ({tag}): {what} step not lowered", b.where(*gk), {"order 0": repr(v0_), "order 1": repr(v1_)})
                     continue
                 ok = v1_.subs(hold).equals(v0_)
-                ctx.check(ok, f"_solve_complex_unc ({tag}): the zero-order-hold {what} step is the first-order one with the force held (f1 := f0)",
+                _check(ctx, ok, f"_solve_complex_unc ({tag}): the zero-order-hold {what} step is the first-order one with the force held (f1 := f0)",
                           b.where(*gk), None if ok else {"order 0": repr(v0_), "order 1 with f1:=f0": repr(v1_.subs(hold)) if _good(v1_) else None})
     if nconf == 12:
         ctx.ok(f"complex path evaluated in {nconf} of 12 configurations", None, nontrivial=False)
@@ -1225,13 +1254,13 @@ def r3c_complex_addon(ctx):
                           (("v", "k"), "elastic velocity")):
             a = add.cell(*key)
             if order == 0:
-                ctx.check(a is None, f"_solve_complex_unc_generator ({tag}): an add-on send leaves the {what} of step i alone (zero-order hold: "
+                _check(ctx, a is None, f"_solve_complex_unc_generator ({tag}): an add-on send leaves the {what} of step i alone (zero-order hold: "
                                      "the step does not depend on its end force)", lp, None if a is None else repr(a["value"]))
                 continue
             p_ = pos.value(*key)
             inc = _inc(a)
             if a is None and _good(p_):
-                ctx.fail(f"_solve_complex_unc_generator ({tag}): an add-on send adds exactly the f1-linear part of the {what} update", lp,
+                _fail(ctx, f"_solve_complex_unc_generator ({tag}): an add-on send adds exactly the f1-linear part of the {what} update", lp,
                          {"add-on": "no store into column i of that partition", "stores": sorted({c["text"] for c in add.cells})})
                 continue
             if inc is None or not _good(p_):
@@ -1240,7 +1269,7 @@ def r3c_complex_addon(ctx):
                 continue
             want = p_.subs(zero)
             ok = inc.equals(want)
-            ctx.check(ok, f"_solve_complex_unc_generator ({tag}): an add-on send adds exactly the f1-linear part of the {what} update", lp,
+            _check(ctx, ok, f"_solve_complex_unc_generator ({tag}): an add-on send adds exactly the f1-linear part of the {what} update", lp,
                       None if ok else {"add-on increment": repr(inc), "d(update)/d f1 * F1": repr(want)})
         _judge_inc(ctx, f"_solve_complex_unc_generator ({tag}): an add-on send adds M_rb^-1 F1[rb] to the rigid-body acceleration", lp, add.cell("a", "rb"),
                    pos.value("a", "rb"))
@@ -1270,7 +1299,7 @@ def r3c_complex_addon(ctx):
             if rf and not velo:
                 want = want + F.sym("phirf") * rfv.subs({"@f1rf": F.fn("T", F.sym("phirf"))})
             ok = got.equals(want)
-            ctx.check(ok, f"_get_f2x_complex_unc ({tag}): flexibility = phi_k (d update/d f1) phi_k^T + phi_rb (d update/d f1) phi_rb^T of the "
+            _check(ctx, ok, f"_get_f2x_complex_unc ({tag}): flexibility = phi_k (d update/d f1) phi_k^T + phi_rb (d update/d f1) phi_rb^T of the "
                           "complex generator's first-order step", fn0, None if ok else {"got": repr(got), "want": repr(want)})
 
 
@@ -1296,7 +1325,7 @@ def r4_get_f2x(ctx):
                     continue
                 upd = _u(pos.value("v" if velo else "d", "k"), gcfg)
                 if flex is RAISES:
-                    ctx.fail(f"{tag}: returns the flexibility for real equations of motion", fn, "raises instead")
+                    _fail(ctx, f"{tag}: returns the flexibility for real equations of motion", fn, "raises instead")
                     continue
                 if not _good(flex) or not _good(upd):
                     _not_lowered(ctx, tag, fn, f"{flex} {upd}", flex, upd)
@@ -1305,7 +1334,7 @@ def r4_get_f2x(ctx):
                 if rf and not velo:
                     want = want + phirf * need(pos.value("d", "rf")).diff("@f1rf") * phirf
                 ok = flex.equals(want)
-                ctx.check(ok, f"{tag}: flexibility = phi (d update / d f1) phi^T, the change a unit add-on force produces in the current step "
+                _check(ctx, ok, f"{tag}: flexibility = phi (d update / d f1) phi^T, the change a unit add-on force produces in the current step "
                               "(rf part: displacement only)", fn, None if ok else {"get_f2x": repr(flex), "from the generator": repr(want)})
     for velo in (False, True):
         try:
@@ -1314,7 +1343,7 @@ def r4_get_f2x(ctx):
             ctx.error("SolveUnc.get_f2x (order 0)", None, str(e))
             continue
         ok = _good(flex) and flex.is_zero()
-        ctx.check(ok, f"SolveUnc.get_f2x ({'velocity' if velo else 'displacement'}): zero for zero-order hold (an add-on does not change the current step)", fn,
+        _check(ctx, ok, f"SolveUnc.get_f2x ({'velocity' if velo else 'displacement'}): zero for zero-order hold (an add-on does not change the current step)", fn,
                   None if ok else repr(flex))
     # SolveExp2: sides of the mass inverse and halves of Q as in the add-on arm of the generator
     for mass in (None, "unc", "coupled"):
@@ -1334,7 +1363,7 @@ def r4_get_f2x(ctx):
                     continue
                 inc = _u(_inc(add.cell("v" if velo else "d", "k")), gcfg)
                 if flex is RAISES:
-                    ctx.fail(f"{tag}: returns the flexibility for real equations of motion", fn, "raises instead")
+                    _fail(ctx, f"{tag}: returns the flexibility for real equations of motion", fn, "raises instead")
                     continue
                 if not _good(flex) or inc is None:
                     _not_lowered(ctx, tag, fn, f"{flex} {inc}", flex)
@@ -1343,7 +1372,7 @@ def r4_get_f2x(ctx):
                 if rf and not velo:
                     want = want + phirf * need(_inc(add.cell("d", "rf"))).diff("@f1rf") * F.fn("T", phirf)
                 ok = flex.equals(want)
-                ctx.check(ok, f"{tag}: flexibility = phi_k (Q M^-1)[{'v half' if velo else 'd half'}] phi_k^T (+ rf part for displacement): the same half of Q "
+                _check(ctx, ok, f"{tag}: flexibility = phi_k (Q M^-1)[{'v half' if velo else 'd half'}] phi_k^T (+ rf part for displacement): the same half of Q "
                               "and the same side of the mass inverse as the add-on arm of the generator", fn,
                           None if ok else {"get_f2x": repr(flex), "from the generator": repr(want)})
     for velo in (False, True):
@@ -1353,7 +1382,7 @@ def r4_get_f2x(ctx):
             ctx.error("SolveExp2.get_f2x (order 0)", None, str(e))
             continue
         ok = _good(flex) and flex.is_zero()
-        ctx.check(ok, f"SolveExp2.get_f2x ({'velocity' if velo else 'displacement'}): zero for zero-order hold", fn, None if ok else repr(flex))
+        _check(ctx, ok, f"SolveExp2.get_f2x ({'velocity' if velo else 'displacement'}): zero for zero-order hold", fn, None if ok else repr(flex))
 
 
 # ---------------------------------------------------------------------------------------------------------------- typestate
@@ -1397,7 +1426,7 @@ def r5_typestate(ctx):
             raised = [k for k, e in enumerate(ev.events) if e[0] == "raise"]
             before = [e for e in ev.events[:raised[0]] if e[0] in ("setattr",) or (e[0] == "call" and e[1].startswith("self."))] if raised else None
             ok = bool(raised) and not before
-            ctx.check(ok, f"{q}: interleaved partitions are refused before anything is allocated or published", fn,
+            _check(ctx, ok, f"{q}: interleaved partitions are refused before anything is allocated or published", fn,
                       None if ok else {"raise reached": bool(raised), "effects before": [e[1] for e in before or []]})
         except Unsupported as e:
             ctx.error(f"{q}: refusal of interleaved partitions", None, str(e))
@@ -1416,12 +1445,12 @@ def r5_typestate(ctx):
             if not all(items) or sc is None or sc[0] != "self._init_dva_part" or not all(it[0].equals(seqv) for it in items):
                 # not four items of one _init_dva_part(...) call: a publication the rule cannot follow (unless something is provably missing)
                 if any(v is None for v in st):
-                    ctx.fail(f"{tag}: _d, _v, _a, _force are published before the body is started", fn, {a: repr(v) for a, v in zip(GEN_STATE, st)})
+                    _fail(ctx, f"{tag}: _d, _v, _a, _force are published before the body is started", fn, {a: repr(v) for a, v in zip(GEN_STATE, st)})
                 else:
                     ctx.error(f"{tag}: the published arrays are not the items of one _init_dva_part(...) call", fn, {a: repr(v) for a, v in zip(GEN_STATE, st)})
                 continue
             ok = [it[1] for it in items] == [0, 1, 2, 3]
-            ctx.check(ok, f"{tag}: _d, _v, _a, _force are the four arrays _init_dva_part returns, in that order", fn,
+            _check(ctx, ok, f"{tag}: _d, _v, _a, _force are the four arrays _init_dva_part returns, in that order", fn,
                       None if ok else {a: repr(v) for a, v in zip(GEN_STATE, st)})
             if not ok:
                 continue
@@ -1429,7 +1458,7 @@ def r5_typestate(ctx):
             part = ctx.src.func(BASE, "_BaseODE._init_dva_part")
             placed = sem.place(sc[1], sc[2], [a.arg for a in part.args.args[1:]])
             okp = all(_eq(placed.get(nm), F.sym(nm)) for nm in pub) and set(placed) <= set(pub)
-            ctx.check(okp, f"{tag}: nt, F0, d0, v0, static_ic reach _init_dva_part under their own names (as they reach _init_dva in the batch solver)", fn,
+            _check(ctx, okp, f"{tag}: nt, F0, d0, v0, static_ic reach _init_dva_part under their own names (as they reach _init_dva in the batch solver)", fn,
                       None if okp else {k: repr(v) for k, v in placed.items()})
             kinds = [(k, e) for k, e in enumerate(ev.events)]
             last_pub = max((k for k, e in kinds if e[0] == "setattr" and e[1] in GEN_STATE), default=-1)
@@ -1447,13 +1476,13 @@ def r5_typestate(ctx):
                 pos = gcalls[0][1][2]
                 want = [st[0], st[1]] + ([st[2]] if with_a else []) + [f0]
                 okg = len(pos) == len(want) and not gcalls[0][1][3] and all(_eq(a, b) for a, b in zip(pos, want))
-            ctx.check(okg, f"{tag}: the generator body for this kind of system receives the published d, v{', a' if with_a else ''} and the initial force", fn,
+            _check(ctx, okg, f"{tag}: the generator body for this kind of system receives the published d, v{', a' if with_a else ''} and the initial force", fn,
                       None if okg else [(e[1], [repr(x) for x in e[2]]) for _, e in gcalls])
             okn = bool(nexts) and all(k > last_pub for k in nexts) and bool(gcalls) and all(k > gcalls[0][0] for k in nexts)
-            ctx.check(okn, f"{tag}: the arrays are published before the generator is primed", fn, None if okn else {"next": nexts, "last publish": last_pub})
+            _check(ctx, okn, f"{tag}: the arrays are published before the generator is primed", fn, None if okn else {"next": nexts, "last publish": last_pub})
             r = ev.returns[-1][0] if ev.returns else None
             okr = isinstance(r, tuple) and len(r) == 3 and _good(r[0]) and (sem.split_call(r[0]) or ("",))[0] == gname and _eq(r[1], st[0]) and _eq(r[2], st[1])
-            ctx.check(okr, f"{tag}: returns (generator, d, v) - the arrays the generator updates are the ones the caller watches", fn,
+            _check(ctx, okr, f"{tag}: returns (generator, d, v) - the arrays the generator updates are the ones the caller watches", fn,
                       None if okr else repr(r))
     # SolveCDF.generator only forwards to SolveUnc.generator
     try:
@@ -1474,7 +1503,7 @@ def r5_typestate(ctx):
             placed = sem.place(sc[1][1:], sc[2], [a.arg for a in base.args.args[1:]])
             pub = [a.arg for a in fn.args.args[1:]]
             ok = all(_eq(placed.get(nm), F.sym(nm)) for nm in pub) and set(placed) <= set(pub)
-        ctx.check(ok, "SolveCDF.generator: forwards nt, F0, d0, v0, static_ic to SolveUnc.generator under their own names and returns its result", fn,
+        _check(ctx, ok, "SolveCDF.generator: forwards nt, F0, d0, v0, static_ic to SolveUnc.generator under their own names and returns its result", fn,
                   None if ok else repr(r))
     except (Unsupported, AnchorError) as e:
         ctx.error("SolveCDF.generator: forwarding", None, str(e))
@@ -1492,21 +1521,21 @@ def r5_typestate(ctx):
         sig = [a.arg for a in ctx.src.func(BASE, "_BaseODE._calc_acce_kdof").args.args[1:]]
         placed = sem.place(calc[0][2], calc[0][3], sig) if len(calc) == 1 and len(calc[0][2]) <= len(sig) else {}
         ok = len(calc) == 1 and len(sig) == 4 and set(placed) == set(sig) and all(_eq(placed[a], b) for a, b in zip(sig, want))
-        ctx.check(ok, f"finalize (get_force {get_force}): acceleration is recovered from equilibrium with the published d, v, a and the force finally in effect", fn,
+        _check(ctx, ok, f"finalize (get_force {get_force}): acceleration is recovered from equilibrium with the published d, v, a and the force finally in effect", fn,
                   None if ok else [[repr(x) for x in e[2]] for e in calc])
         dels = {e[1] for e in ev.events if e[0] == "del"}
-        ctx.check(set(GEN_STATE) <= dels, f"finalize (get_force {get_force}): the published arrays are forgotten", fn, sorted(dels), nontrivial=False)
+        _check(ctx, set(GEN_STATE) <= dels, f"finalize (get_force {get_force}): the published arrays are forgotten", fn, sorted(dels), nontrivial=False)
         r = ev.returns[-1][0] if ev.returns else None
         obj = symname(r) if _good(r) else None
         ok = obj is not None and ev.heap.get(obj) == "namespace" and all(_eq(ev.env.get(f"{obj}.{k}"), w) for k, w in zip("dva", want))
-        ctx.check(ok, f"finalize (get_force {get_force}): the solution holds the published d, v, a", fn,
+        _check(ctx, ok, f"finalize (get_force {get_force}): the solution holds the published d, v, a", fn,
                   None if ok else {"returned": repr(r), "members": {k: repr(v) for k, v in ev.env.items() if obj and k.startswith(obj + ".")}})
         if get_force:
             nm = None
             for k, v in ev.env.items():
                 if obj and k == obj + ".force" and _eq(v, want[3]):
                     nm = k
-            ctx.check(nm is not None, "finalize: with get_force the force history finally in effect is returned", fn)
+            _check(ctx, nm is not None, "finalize: with get_force the force history finally in effect is returned", fn)
     # _force is read only by finalize and the generator functions
     readers = []
     consts = G.ModConsts(ctx.src)
@@ -1571,7 +1600,7 @@ def r5_typestate(ctx):
         return all(on_behalf(c_, seen + (q_,)) for c_ in callers)
 
     bad_readers = sorted(q_ for q_ in set(readers) if not on_behalf(q_))
-    ctx.check(not bad_readers, "the stored force history `_force` is read only by the generator bodies and finalize (or private helpers only they call)",
+    _check(ctx, not bad_readers, "the stored force history `_force` is read only by the generator bodies and finalize (or private helpers only they call)",
               BASE + ":1", bad_readers)
     # _init_dva_part
     inl = G.inline_table(ctx, [(BASE, "_BaseODE")], exclude=("_init_dva_part", "_init_dva", "generator", "tsolve", "fsolve", "finalize"))
@@ -1592,18 +1621,18 @@ def r5_typestate(ctx):
                                        and not any(c["root"] is not None and _eq(c["root"], src) for c in ev.gcells))
             cells = [c for c in ev.gcells if c["root"] is not None and _eq(c["root"], r[3])]
             ok = zero and len(cells) == 1 and is_all(cells[0]["rows"]) and _good(cells[0]["col"]) and cells[0]["col"].is_zero() and _eq(cells[0]["value"], f0)
-        ctx.check(ok, f"{tag}: the force history starts as zeros with column 0 = F0", fn, None if ok else repr(r))
+        _check(ctx, ok, f"{tag}: the force history starts as zeros with column 0 = F0", fn, None if ok else repr(r))
         if isinstance(r, tuple) and len(r) == 4:
             for k, nm, what in ((0, fn.args.args[3].arg, "displacement"), (1, fn.args.args[4].arg, "velocity")):
                 cells = [c for c in ev.gcells if c["root"] is not None and _eq(c["root"], r[k]) and symname(c["rows"]) == "self.nonrf"]
                 ok = len(cells) == 1 and _good(cells[0]["col"]) and cells[0]["col"].is_zero() and \
                     _eq(cells[0]["value"], F.fn("ref", F.sym(nm), F.sym("self.nonrf"), G.ALLM))
-                ctx.check(ok, f"{tag}: a given initial {what} lands in column 0 of the {what} array (non-rf equations), as in the batch solver", fn,
+                _check(ctx, ok, f"{tag}: a given initial {what} lands in column 0 of the {what} array (non-rf equations), as in the batch solver", fn,
                           None if ok else [(c["text"], repr(c["value"])) for c in cells])
             cells = [c for c in ev.gcells if c["root"] is not None and _eq(c["root"], r[0]) and symname(c["rows"]) == "self.rf"]
             ok = len(cells) == 1 and _good(cells[0]["col"]) and cells[0]["col"].is_zero() and \
                 _eq(cells[0]["value"], IKRF * F.fn("ref", f0, F.sym("self.rf"), G.ALLM))
-            ctx.check(ok, f"{tag}: the rf displacement of step 0 is the static solution K_rf^-1 F0[rf] (as in the batch solver)", fn,
+            _check(ctx, ok, f"{tag}: the rf displacement of step 0 is the static solution K_rf^-1 F0[rf] (as in the batch solver)", fn,
                       None if ok else [repr(c["value"]) for c in cells])
 
 
@@ -1645,14 +1674,14 @@ def r7_constructor_state_is_read_only(ctx):
             nfun += 1
             if bad:
                 for path, node, how in bad:
-                    ctx.fail(f"{q} (as reached from {cls}.{'/'.join(ENTRY)}): stores in place into `{path}`, which the constructor computed and every "
+                    _fail(ctx, f"{q} (as reached from {cls}.{'/'.join(ENTRY)}): stores in place into `{path}`, which the constructor computed and every "
                              "later solution of this solver object reads", node,
                              {"how": how, "statement": ast.unparse(node)[:120],
                               "consequence": "the first solution damages the solver; a later generator run (or tsolve) no longer solves the system it was built for"},
                              key=f"C08-R7|{q}|{path}")
             else:
                 ctx.ok(f"{q} (as reached from {cls}): no in-place store into an array the constructor computed", fn)
-    ctx.check(nfun >= 20, f"effect rule bound to {nfun} reachable functions", BASE + ":1", nontrivial=False)
+    _check(ctx, nfun >= 20, f"effect rule bound to {nfun} reachable functions", BASE + ":1", nontrivial=False)
 
 
 # ---------------------------------------------------------------------------------------------------------------- partition typing
@@ -1861,7 +1890,7 @@ def _report_typing(ctx, qual, label, bad, checked):
             if key in seen:
                 continue
             seen.add(key)
-            ctx.fail(f"{qual} [{label}]: {kind}", node, detail, key=key)
+            _fail(ctx, f"{qual} [{label}]: {kind}", node, detail, key=key)
     for i, node in checked.items():
         if i in bad:
             continue
